@@ -325,6 +325,9 @@ type layoutRun struct {
 
 func (lr *layoutRun) classify(addr string, err error) string {
 	if err != nil {
+		if strings.HasPrefix(err.Error(), "panic: ") {
+			return "panic" // the real routing function panicked on this key
+		}
 		return "error"
 	}
 	if n, ok := lr.nameOf[addr]; ok {
